@@ -404,6 +404,16 @@ Fixpoint final (m : mode) (ops : list op) (s : mgr) : mgr :=
 (* deterministic labels / keys of the generators (harness/c15 computes the same bytes) *)
 Definition mk_label (len seed nul : Z) : list Z :=
   map (fun i => if i =? nul then 0 else 33 + (seed * 31 + i * 7) mod 90) (zrange 0 (Z.to_nat len)).
+(* a label of [len] bytes made of len/w UTF-8 characters of w bytes each (w = 2, 3, 4: U+00C0.., U+2080.., U+1F600..)
+   followed by len mod w ASCII characters; w = 1 is [mk_label] without a NUL *)
+Definition utf8_char (w c : Z) : list Z :=
+  if w =? 2 then [195; 128 + c mod 64]
+  else if w =? 3 then [226; 130; 128 + c mod 64]
+  else [240; 159; 152; 128 + c mod 64].
+Definition mk_label_u (len seed w : Z) : list Z :=
+  if w <=? 1 then mk_label len seed (-1) else
+  flat_map (fun c => utf8_char w (seed + c)) (zrange 0 (Z.to_nat (len / w)))
+  ++ map (fun i => 33 + (seed * 31 + i * 7) mod 90) (zrange 0 (Z.to_nat (len mod w))).
 Definition mk_key (len seed : Z) : list Z :=
   map (fun i => (seed * 31 + i * 7 + 1) mod 251) (zrange 0 (Z.to_nat len)).
 
